@@ -27,7 +27,7 @@ from vf.gen import omkm_model as G
 from vf.ref import cti as C
 
 ID = 'C07'
-N = {'quick': 15000, 'thorough': 450000}
+N = {'quick': 28000, 'thorough': 600000}
 WEIGHTS = {'model': 20, 'history': 35, 'reactor': 45}
 NT_RULE = ('case kinds: model (units x 1-4 phases x 2-40 Nasa/Nasa9/Shomate species x 0-40 surface reactions '
            'x BEPs x lateral interactions, phases populated at construction / through organize_phases / '
